@@ -24,6 +24,24 @@ fn main() {
     let args: Vec<String> = std::env::args().collect();
     let mode = args.get(1).map(|s| s.as_str()).unwrap_or("");
     match mode {
+        "--resolver" => {
+            // --resolver <address> iface=address ...
+            let table: Vec<(String, String)> = args[3..]
+                .iter()
+                .map(|a| {
+                    let i = a.find('=').unwrap();
+                    (a[..i].to_string(), a[i + 1..].to_string())
+                })
+                .collect();
+            let svc = varlink::VarlinkService::new("rv", "rp", "1", "ru", vec![Box::new(ResolverIface { table }) as Box<dyn varlink::Interface + Send + Sync>]);
+            let _ = varlink::listen(svc, &args[2], &varlink::ListenConfig { idle_timeout: 300, ..Default::default() });
+        }
+        "--listen-one" => {
+            // --listen-one <address> <a|b> : only one of the two scripted interfaces, long idle timeout
+            let mut sp = spec();
+            sp.ifaces.retain(|(n, _, _)| n.ends_with(&args[3]));
+            let _ = varlink::listen(sp.build(false), &args[2], &varlink::ListenConfig { idle_timeout: 300, ..Default::default() });
+        }
         "--listen" => {
             if let Some(i) = args.iter().position(|a| a == "--report") {
                 let mut f = std::fs::File::create(&args[i + 1]).unwrap();
